@@ -15,7 +15,11 @@ func TestC32Count(t *testing.T) {
 	}
 	for k := 1; k <= d; k++ {
 		var n, withTxn int64
-		enumerate(newModel(false), nil, k, func(h []sym) {
+		mask := fullMask
+		if os.Getenv("C32_COUNT_DEEP") != "" {
+			mask = deepMask
+		}
+		enumerate(newModel(false), nil, k, mask, func(h []sym) {
 			n++
 			if hasTxn(h) >= 0 {
 				withTxn++
